@@ -44,6 +44,7 @@ type c16X struct {
 	NoopOp      int
 	ViaSendMail bool
 	Slow        bool // the producer pauses longer than CommandTimeout between two writes
+	SlowVerdict bool // the backend takes longer than CommandTimeout (but less than SubmissionTimeout) to decide
 	Fault       int  // 0 none; the exchange is broken off: 1 Server.Close at some instant, 2 the backend panics inside Data, 3 a reply write of the server fails (and all later ones), 4 the server stops taking part for ever after some reply (blocked write)
 }
 
@@ -114,6 +115,13 @@ func genC16(t *Tape, tier string) *Scenario {
 	if x.Reject {
 		dp.V = Verdict{Kind: vSMTP, Code: 550, Enh: [3]int{5, 7, 1}, Msg: "message refused by policy"}
 	}
+	if t.Chance(1, 12) {
+		// a backend that takes six minutes over the message: longer than the client's
+		// CommandTimeout, well inside its SubmissionTimeout - Close waits for the verdict
+		dp.ParkAfter = 6 * time.Minute
+		sc.Srv.ReadTO, sc.Srv.WriteTO = 0, 0
+		x.SlowVerdict = true
+	}
 	sc.BE.Conns = []ConnBackendPlan{{Data: []DataPlan{dp}}}
 	// partition of the body into Write calls
 	var parts []int
@@ -171,7 +179,7 @@ func genC16(t *Tape, tier string) *Scenario {
 		// replies that arrive in pieces, also in the middle of a line or a CRLF
 		cs.SrvFaults.WriteSplit = []int{1 + t.Intn(20), 1 + t.Intn(5)}
 	}
-	if !x.Slow && t.Chance(1, 8) {
+	if !x.Slow && !x.SlowVerdict && t.Chance(1, 8) {
 		// fault stratum: the exchange is broken off somewhere; the client may report
 		// anything but a success the backend did not grant
 		x.Fault = 1 + t.Intn(4)
@@ -326,7 +334,7 @@ func checkC16(sc *Scenario, h *History) []Violation {
 	if res[x.NoopOp].Err != "" {
 		v("C16.after", "NOOP after the message failed: %s", res[x.NoopOp].Err)
 	}
-	if d.End-d.Begin > int64(time.Minute) && !x.Slow {
+	if d.End-d.Begin > int64(time.Minute) && !x.Slow && !x.SlowVerdict {
 		v("C16.slow", "the DATA exchange took %v of fake time", time.Duration(d.End-d.Begin))
 	}
 	return out
@@ -374,6 +382,9 @@ func classifyC16(sc *Scenario, h *History, st *Stats) string {
 	if x.Slow {
 		st.Faults["producer_pauses_longer_than_CommandTimeout"]++
 	}
+	if x.SlowVerdict {
+		st.Faults["backend_verdict_later_than_CommandTimeout"]++
+	}
 	if x.Fault > 0 {
 		st.Faults["exchange_broken_off_"+[]string{"", "by_Server.Close", "by_backend_panic", "by_failing_reply_write", "by_blocked_reply_write"}[x.Fault]]++
 		if r := h.Conns[0].Client; r != nil && len(r.Results) > x.DataOp {
@@ -410,7 +421,7 @@ func init() {
 		Real:        []string{"smtp.Client (Mail, Rcpt, Data, LMTPData, dataCloser.Close, Noop, Quit)", "net/textproto DotWriter/Reader", "smtp.Server.Serve/handleConn", "smtp.Conn handlers", "dataReader", "lineLimitReader"},
 		Stub:        []string{"net.Listener (SimListener)", "net.Conn (SimConn, re-segmenting)", "Backend/Session (SimBackend)", "clock (synctest)"},
 		Assumptions: []string{"an empty body may arrive as \"\" or as a single CRLF", "bodies contain CR only as part of CRLF, as the property states"},
-		Required:    []string{"bare_LF", "line_starting_with_dot", "embedded_end_of_data_lookalike", "no_final_newline", "producer_pauses_longer_than_CommandTimeout", "via_Client.SendMail", "rejected_then_close_twice", "exchange_broken_off_by_Server.Close", "exchange_broken_off_by_backend_panic", "exchange_broken_off_by_failing_reply_write", "exchange_broken_off_by_blocked_reply_write", "client_reports_failure_of_broken_exchange"},
+		Required:    []string{"bare_LF", "line_starting_with_dot", "embedded_end_of_data_lookalike", "no_final_newline", "producer_pauses_longer_than_CommandTimeout", "via_Client.SendMail", "rejected_then_close_twice", "exchange_broken_off_by_Server.Close", "exchange_broken_off_by_backend_panic", "exchange_broken_off_by_failing_reply_write", "exchange_broken_off_by_blocked_reply_write", "client_reports_failure_of_broken_exchange", "backend_verdict_later_than_CommandTimeout"},
 		QuickRuns:   150000, ThoroughRuns: 3000000,
 	})
 }
